@@ -105,15 +105,29 @@ class NeedGuard(Exception):
 
 class Ctx:
     def __init__(s, prog, dec):
-        s.prog = prog; s.dec = dec; s.log = []; s.consulted = []
+        s.prog = prog; s.dec = dec; s.log = []; s.consulted = []; s.throws = False; s.thrown = False
+
+    def maybe_throw(s, kind, idx):
+        """C12: behaviour position (kind 0 entry, 1 exit, 2 action, 3 guard) as a possible throw point; single fault per step"""
+        if not s.throws or s.thrown: return
+        key = 1000 + kind * 64 + idx
+        if key not in s.dec: raise NeedGuard(key)
+        if s.dec[key]:
+            s.thrown = True
+            raise ModelThrow()
 
     def guard(s, site, cls='G'):
+        if cls == 'G': s.maybe_throw(3, site)
         if site not in s.dec: raise NeedGuard(site)
         v = s.dec[site]
         s.consulted.append(site)
         if getattr(s, 'sem', None) is not None and s.sem.probe: s.sem.emit_probe()
         s.log.append((cls, site, v))
         return v
+
+
+class ModelThrow(Exception):
+    pass
 
 
 class Conf:
@@ -127,11 +141,12 @@ class Conf:
         s.queue = []      # pending message-queue entries: (evt, payload expr)
         s.deferred = []   # pending deferred entries
         s.blocked_swallowed = 0
+        s.unspec = set()    # machines whose inner ids are unspecified (entry aborted by an exception)
 
     def clone(s):
         c = Conf.__new__(Conf); c.prog = s.prog; c.m = copy.deepcopy(s.m)
         c.started = s.started; c.queue = list(s.queue); c.deferred = list(s.deferred)
-        c.blocked_swallowed = s.blocked_swallowed
+        c.blocked_swallowed = s.blocked_swallowed; c.unspec = set(s.unspec)
         return c
 
     def key(s):
@@ -142,7 +157,7 @@ class Conf:
         return (s.started, tuple((n, tuple(v['active']) if n in act else None,
                                   tuple(v['hist']) if (v['hist'] and hm[n]) else None)
                                  for n, v in sorted(s.m.items())),
-                tuple(s.queue), tuple(s.deferred))
+                tuple(s.queue), tuple(s.deferred), tuple(sorted(s.unspec)))
 
     def active_machines(s, m=None, out=None):
         """machines that are active (root + submachines whose state is active), DFS"""
@@ -173,6 +188,7 @@ class Sem:
     def L(s, kind, idx, pay):
         s.ctx.log.append((kind, idx, pay))
         s.emit_probe()
+        if kind in ('E', 'X', 'A'): s.ctx.maybe_throw({'E': 0, 'X': 1, 'A': 2}[kind], idx)
 
     def emit_probe(s):
         if not s.probe: return
@@ -234,6 +250,15 @@ class Sem:
         return False
 
     def enter_machine(s, m, pay, explicit=None, evt=None, own_pay=None):
+        try:
+            s.c.unspec.discard(m.name)
+            s.enter_machine_(m, pay, explicit, evt, own_pay)
+        except ModelThrow:
+            # an entry cascade aborted by an exception: what the ids inside the target submachine are is not specified
+            s.c.unspec.add(m.name)
+            raise
+
+    def enter_machine_(s, m, pay, explicit=None, evt=None, own_pay=None):
         cm = s.c.m[m.name]
         use_hist = s.use_history(m, evt)
         for r, reg in enumerate(m.regions):
@@ -275,14 +300,18 @@ class Sem:
         if s.c.started: return
         s.c.started = True
         s.pay = '-1'
+        saved = s.ctx.throws; s.ctx.throws = False      # start()/stop() have no catch handler: throwing there is outside C12
         s.enter_machine(s.prog.root, '-1', None, None)
+        s.ctx.throws = saved
         s.run_completions()
         s.drain()
 
     def stop(s):
         if not s.c.started: return
         s.c.started = False
+        saved = s.ctx.throws; s.ctx.throws = False
         s.exit_machine(s.prog.root, '-1')
+        s.ctx.throws = saved
 
     # ---- event dispatch
     def process_event(s, ev, pay='P'):
@@ -345,18 +374,28 @@ class Sem:
             if n > 12: raise RuntimeError('completion chain does not end')
             s.pay = '-1'
             cands = [x for x in reversed(m.rows) if x.src == name and x.evt is None]
-            for row in cands:
-                if row.guard is not None and not s.ctx.guard(row.guard, 'Q'): continue
-                s.take(m, r, row, None)
-                break
+            try:
+                for row in cands:
+                    if row.guard is not None and not s.ctx.guard(row.guard, 'Q'): continue
+                    s.take(m, r, row, None)
+                    break
+            except ModelThrow:
+                s.ctx.log.append(('C', m.idx, s.pay))
 
     def process_in_machine(s, m, ev, toplevel):
         cm = s.c.m[m.name]
         res = 0
-        for r in range(len(m.regions)):
-            res |= s.dispatch_region(m, r, ev)
-        if not (res & (H_TRUE | H_DEFERRED)):
-            res |= s.try_rows(m, None, [x for x in reversed(m.internal)], ev)
+        try:
+            for r in range(len(m.regions)):
+                res |= s.dispatch_region(m, r, ev)
+            if not (res & (H_TRUE | H_DEFERRED)):
+                res |= s.try_rows(m, None, [x for x in reversed(m.internal)], ev)
+        except ModelThrow:
+            # the machine level that was processing the event catches: exception_caught once, event not handled at this level,
+            # no further behaviour of the aborted transition, no no_transition
+            s.ctx.log.append(('C', m.idx, s.pay))
+            s.res_unspecified = True
+            return H_REJECT if not toplevel else 0
         if res == 0 and toplevel:
             for r in range(len(m.regions)):
                 s.ctx.log.append(('N', m.idx, cm['active'][r], s.pay))
@@ -457,16 +496,17 @@ class DefEnt(tuple):
 ANY = '*any*'     # log argument that is not specified by the property (not compared)
 
 
-def explore(prog, conf, stepfn, probe=None):
+def explore(prog, conf, stepfn, probe=None, throws=False):
     """enumerate all guard-valuation paths of one step from conf.
     stepfn(sem) -> result.  returns list of (decisions, log, result, postconf)"""
     paths = []
     stack = [{}]
     while stack:
         dec = stack.pop()
-        c = conf.clone(); ctx = Ctx(prog, dec)
+        c = conf.clone(); ctx = Ctx(prog, dec); ctx.throws = throws
         try:
             res = stepfn(Sem(prog, c, ctx, probe=probe))
+            if ctx.thrown: res = None     # the result code of a call in which a behaviour threw is not specified by C06/C12
             paths.append((dec, ctx.log, res, c))
         except NeedGuard as n:
             for v in (1, 0):
@@ -485,7 +525,7 @@ def guard_sites(prog):
     return sorted(out)
 
 
-def bfs(prog, steps, max_depth=6, max_confs=200):
+def bfs(prog, steps, max_depth=6, max_confs=200, throws=False):
     """breadth-first search over abstract configurations.  steps: list of step descriptors
     (('ev', name) | ('stop',) | ('start',)).  Returns list of (conf, script) where script is a
     list of (step, decisions) reaching conf from the constructed (not started) machine."""
@@ -502,10 +542,10 @@ def bfs(prog, steps, max_depth=6, max_confs=200):
                 # prefix events carry distinct concrete payloads (their position in the script), so that the order of
                 # pending events of one type is observable
                 st0 = (st[0], st[1], str(len(script) + 1)) if (st[0] in ('ev', 'enq') and len(st) == 2) else st
-                for dec, log, res, post in explore(prog, conf, lambda sem, st0=st0: run_step(sem, st0)):
+                for dec, log, res, post in explore(prog, conf, lambda sem, st0=st0: run_step(sem, st0), throws=throws):
                     edges += 1
                     pk = post.key()
-                    if pk not in seen and len(seen) < max_confs and len(post.queue) + len(post.deferred) <= 3:
+                    if pk not in seen and len(seen) < max_confs and len(post.queue) + len(post.deferred) <= 3 and not post.unspec:
                         seen[pk] = (post, script + [(st0, dec)])
                         order.append(pk); nxt.append(pk)
         frontier = nxt
